@@ -1,15 +1,17 @@
 ----------------------------- MODULE KeyFlowGen -----------------------------
 (* GEN form: KeyFlow plus a history variable; behaviours of exactly GEN_DEPTH actions of the flow  *)
 (* GEN_FLOW are printed as JSON for replay on the real code (exhaustive, or -simulate for long    *)
-(* ones).  GEN_MENU = "diag" keeps, in the sig flow, only verifications by parameter sets that    *)
-(* differ from the signing set in at most one component (the diagonal and its neighbours).        *)
+(* ones).  GEN_MENU = "mid" keeps only behaviours whose second action is Tamper or Reencode (the  *)
+(* sign / disturb / verify shape; Sign-Verify-Verify adds nothing to depth 2).                    *)
 EXTENDS KeyFlow, Json, IOUtils
 VARIABLES hist, done
 Depth == atoi(IOEnv.GEN_DEPTH)
 GFlow == IOEnv.GEN_FLOW
+Menu == IOEnv.GEN_MENU
+Allowed == Menu = "mid" /\ Len(hist) = 1 => act'.a \in {"Tamper", "Reencode"}
 GInit == Init /\ obj.flow = GFlow /\ hist = <<>> /\ done = FALSE
 \* the final step exists only to print the finished behaviour exactly once (also in -simulate mode)
-GNext == \/ Len(hist) < Depth /\ Next /\ hist' = Append(hist, act') /\ UNCHANGED done
+GNext == \/ Len(hist) < Depth /\ Next /\ Allowed /\ hist' = Append(hist, act') /\ UNCHANGED done
          \/ Len(hist) = Depth /\ ~done /\ done' = TRUE /\ UNCHANGED <<vars, hist>>
             /\ PrintT(ToJson([flow |-> obj.flow, kt |-> obj.kt, size |-> obj.size, hist |-> hist]))
 =============================================================================
